@@ -345,7 +345,51 @@ func treeOverwrite(p string, clone bool) (string, error) {
 	return h.String(), err
 }
 
+// zeroFS: the zero value of the exported struct TrustedFS must not be a usable file system
+func zeroFS(p string, sub bool) (out string, err error) {
+	defer func() {
+		if r := recover(); r != nil {
+			err = fmt.Errorf("panicked: %v", r)
+		}
+	}()
+	name := "zz_verif_payload.tmpl"
+	if werr := os.WriteFile(name, []byte("<p>"+strings.ReplaceAll(p, "{{", "")+"</p>"), 0o644); werr != nil {
+		return "", werr
+	}
+	defer os.Remove(name)
+	fsys := template.TrustedFS{}
+	if sub {
+		fsys, err = fsys.Sub(template.TrustedSourceFromConstant("."))
+		if err != nil {
+			return "", err
+		}
+	}
+	t, err := template.ParseFS(fsys, name)
+	if err != nil {
+		return "", err
+	}
+	h, err := t.ExecuteToHTML(nil)
+	return h.String(), err
+}
+
+type rawJSON struct{ s string }
+
+func (r rawJSON) MarshalJSON() ([]byte, error) { return []byte(r.s), nil }
+
 func init() {
+	adapters["TrustedFS{};ParseFS(run-time file name)"] = func(p string) (string, error) { return zeroFS(p, false) }
+	adapters["TrustedFS{}.Sub;ParseFS(run-time file name)"] = func(p string) (string, error) { return zeroFS(p, true) }
+	adapters["ScriptFromDataAndConstant.data=json.RawMessage"] = func(p string) (string, error) {
+		b, _ := json.Marshal(p)
+		raw := json.RawMessage(strings.ReplaceAll(strings.ReplaceAll(string(b), "\\u003c", "<"), "\\u003e", ">"))
+		s, err := safehtml.ScriptFromDataAndConstant("myVar", raw, "use(myVar);")
+		return s.String(), err
+	}
+	adapters["ScriptFromDataAndConstant.data=json.Marshaler"] = func(p string) (string, error) {
+		b, _ := json.Marshal(p)
+		s, err := safehtml.ScriptFromDataAndConstant("myVar", map[string]interface{}{"k": rawJSON{strings.ReplaceAll(string(b), "\\u003c", "<")}}, "use(myVar);")
+		return s.String(), err
+	}
 	adapters["Template.Tree=parse(data);ExecuteToHTML"] = func(p string) (string, error) { return treeOverwrite(p, false) }
 	adapters["Template.Tree=parse(data);Clone;ExecuteToHTML"] = func(p string) (string, error) { return treeOverwrite(p, true) }
 }
